@@ -101,11 +101,13 @@ CFGS = ["mdpax.solvers.value_iteration.ValueIterationConfig", "mdpax.solvers.pol
         "mdpax.problems.perishable_inventory.de_moor_single_product.DeMoorSingleProductPerishableConfig",
         "mdpax.problems.perishable_inventory.hendrix_two_product.HendrixTwoProductPerishableConfig"]
 C20M = ["contracts.logging_configs", "contracts.validators"]
+CTOR = [U(["contracts.constructors"], f"{t}.__init__", timeout_ms=15000) for t in (VI, RV, PV, SA, PI)]
 PROPS["C20"] = dict(level="proof",
     units=[U(C20M, "mdpax.utils.logging.get_convergence_format"), U(C20M, "mdpax.core.solver.Solver._setup_config"),
            U(C20M, f"{VI}._setup_convergence_testing", only=["full."], tag="full")]
           + [U(C20M, f"{c}.__post_init__") for c in CFGS]
-          + [U(C20M, "mdpax.problems.perishable_inventory.mirjalili_platelet.MirjaliliPlateletPerishableConfig.__post_init__"), U(C20M, "mdpax.utils.logging.verbosity_to_loguru_level")],
+          + [U(C20M, "mdpax.problems.perishable_inventory.mirjalili_platelet.MirjaliliPlateletPerishableConfig.__post_init__"), U(C20M, "mdpax.utils.logging.verbosity_to_loguru_level")]
+          + CTOR,
     replayers=[("*", "replay_c20.py")],
     bounded=[dict(name="c20_runtime", script="harness_c20.py", wall_s=400)],
     assumptions=[ARITH, ENGINE, "the float64 clause and the equivalence of the three construction routes involve JAX's global x64 flag, Hydra instantiate and the OmegaConf YAML round trip: bounded run-time checks only (fresh processes, 5 solvers x 2 problems), not proved"])
